@@ -448,20 +448,22 @@ pub(crate) fn run_scheduling_solver(
             let v_id = ResourceVariantId::new(0);
             let n_nodes = rqv.get(v_id).n_nodes() as usize;
             let mut ws: Vec<ThinVec<WorkerId>> = Vec::new();
-            for worker in &workers {
-                if let Some(v) = placements.get(&(worker.id, resource_rq_id, v_id)) {
-                    let count = solution.get_value(*v).round() as u32;
-                    if count > 0 {
-                        if let Some(last) = ws.last_mut()
-                            && last.len() < n_nodes
-                        {
-                            last.push(worker.id);
-                        } else {
-                            let mut workers = ThinVec::with_capacity(n_nodes);
-                            workers.push(worker.id);
-                            ws.push(workers);
-                        }
-                    }
+            // Workers of one task have to come from a single group; the number of workers
+            // selected in each group is a multiple of `n_nodes` (see the "MN size" constraint)
+            let mut group_names: Vec<&String> = worker_groups.keys().collect();
+            group_names.sort_unstable();
+            for group_name in group_names {
+                let mut selected: Vec<WorkerId> = worker_groups[group_name]
+                    .worker_ids()
+                    .filter(|w_id| {
+                        placements
+                            .get(&(*w_id, resource_rq_id, v_id))
+                            .is_some_and(|v| solution.get_value(*v).round() as u32 > 0)
+                    })
+                    .collect();
+                selected.sort_unstable();
+                for chunk in selected.chunks_exact(n_nodes) {
+                    ws.push(chunk.iter().copied().collect());
                 }
             }
             if !ws.is_empty() {
